@@ -300,6 +300,15 @@ def run(ctx, chk):
                'syscall origin literal %r is %s' % (s, 'ASCII with one trailing NUL' if good else 'NOT a valid C string'))
     chk.floor('C14.M5', 'syscall origin literals', len(lits), 3)
 
+    # ---- M6 a failing call leaves nothing behind: the error exits of snapshot() do not touch what the reader keeps between
+    # calls (C03.G2). Otherwise the *next* call takes the "nothing changed" path and answers Ok from the previous record,
+    # although the record in the segment is the one that was just refused (drift >= 1e9, say): the error is reported once
+    # instead of on every call.
+    from . import C03
+    n6 = common.import_obligations(ctx, chk, C03, 'C14', LEVEL, lambda o: o['rule'] == 'C03.G2' and o['key'].startswith(('err-exit', 'cache-exit', 'retry')), 'C14.M6')
+    if not getattr(chk, '_nested', False):
+        chk.floor('C14.M6', 'exits of snapshot() that accept nothing, checked for leaving the cache alone (imported)', n6, 2)
+
 
 def _const_operands(node):
     """every constant operand (dict with k == 'const') inside a MIR statement / terminator record"""
